@@ -231,6 +231,8 @@ def r7(F, rep):
             while init["k"] in ("CXXConstructExpr",) and len(X.kids(init)) == 1:
                 init = X.strip(X.kids(init)[0])
             if init["k"] == "MemberExpr" and init.get("n") in members:
+                if v.get("ref") or "&" in f.typestr(v.get("t")):
+                    continue          # a reference is an alias of the member, not a snapshot of it
                 saved[init["n"]] = v
     # the change test: conditions guarding `new_params = true`
     # the flag is identified by its role: the boolean local that guards the re-dimensioning (init_from_boundaries / setup)
